@@ -423,4 +423,9 @@ func c10Run(w *W) {
 
 func init() {
 	register(&Scenario{Name: "close-everything", Prop: "C10", Horizon: time.Hour, Run: c10Run})
+	// C14's last clause ("after the dialer or its socket is closed no new
+	// connection attempt is started ... for Close at any phase") is decided by
+	// the same runs: the close races Dial / NewDialer / redial timers, and the
+	// quiet period sees any attempt made afterwards
+	register(&Scenario{Name: "close-at-any-phase", Prop: "C14", Horizon: time.Hour, Weight: 3, Run: c10Run})
 }
